@@ -110,17 +110,32 @@ def run_real(case):
         out["iter"] = "nonterm"
         return out
     out["iter"] = "ok"
-    out["evs"] = log
-    # batch sampler over a fresh object (the generator mutates nothing but counters local to the loop)
-    log2 = []
-    s2 = build_real(case, log2)
+    out["evs"] = list(log)
+    # the stream is a function of the configuration: iterating the SAME object again (as a second DataLoader pass does)
+    # must give the same stream; then the batch sampler of that same object is consumed
+    first = list(log)
+    del log[:]
+    try:
+        for full, idx in s:
+            log.append([1 if full else 0, int(idx)])
+            if len(log) > MAX_EVENTS:
+                break
+    except (AssertionError, _OutOfTable):
+        log.append("error")
+    out["repeat_ok"] = (log == first)
+    del log[:]
+    s2 = s
     batches = []
     rest = []
     try:
         for b in s2.batch_sampler:
             batches.append([int(i) for i in b])
+            if len(batches) > MAX_EVENTS:
+                break
     except AssertionError:
         rest = ["assert"]
+    except _OutOfTable:
+        rest = ["nonterm"]
     out["batches"] = batches
     out["rest"] = rest
     resolved = []
@@ -269,6 +284,9 @@ def oracle(case, real, which):
         return None
     exp = expected_stream(case, e0)
     mds = case["mds"]
+    if which == "C04" and real.get("repeat_ok") is False:
+        return Failure("interleaved:reiteration", f"iterating the same sampler object a second time gives a different stream for {tag}", case,
+                       "same stream on every pass", "second pass differs")
     if which == "C04":
         got_main = [e for e in real["evs"] if e[0] == 2 or e[1] < mds]
         exp_main = [e for e in exp if e[0] == 2 or e[1] < mds]
@@ -547,7 +565,7 @@ class C04(InterleavedCheck):
         if "evs" not in ans:
             return ans
         mds = case["mds"]
-        return {"ctor": ans["ctor"], "start": ans["start"], "iter": ans["iter"], "rest": ans["rest"],
+        return {"ctor": ans["ctor"], "start": ans["start"], "iter": ans["iter"], "rest": ans["rest"], "repeat_ok": ans.get("repeat_ok"),
                 "main_evs": [e for e in ans["evs"] if e[0] == 2 or e[1] < mds],
                 "main_batches": [b for b in ans["batches"] if b and b[0] < mds],
                 "n_batches_cut_ok": all(all((i < mds) == (b[0] < mds) for i in b) for b in ans["batches"])}
